@@ -15,6 +15,9 @@ LEVEL = "proof"
 # ------------------------------------------------------------------ values (Python side: generation and classification only)
 # ('n',) ('t',) ('f',) ('i', int) ('d', bits) ('y', int) ('s', bytes) ('b', bytes) ('e', raised, bytes)
 # ('L', [v]) ('M', [(key bytes, v)]) ('S', [v])
+# an error may carry its chain: ('e', raised, full message, (id, base message, (prefix, ...))) - the Go error is the base error
+# `id` (one object per id and message within a case, as a sentinel) wrapped once per prefix with "%s: %w"; the model and the laws
+# know the message and the raised flag only
 
 INF_MAG = 0x7FF0000000000000
 SIGN = 1 << 63
@@ -39,6 +42,8 @@ def text(v):
     if k == "b":
         return "b=" + v[1].hex()
     if k == "e":
+        if len(v) > 3:
+            return "E%d=%s" % (1 if v[1] else 0, "/".join([str(v[3][0]), v[3][1].hex()] + [x.hex() for x in v[3][2]]))
         return "e%d=%s" % (1 if v[1] else 0, v[2].hex())
     if k == "L":
         return " ".join(["L%d" % len(v[1])] + [text(x) for x in v[1]])
@@ -47,6 +52,26 @@ def text(v):
     if k == "M":
         return " ".join(["M%d" % len(v[1])] + ["k=%s %s" % (kk.hex(), text(x)) for kk, x in v[1]])
     raise ValueError(v)
+
+
+def chain_err(raised, ident, base, prefixes):
+    msg = base
+    for px in prefixes:
+        msg = px + b": " + msg
+    return ("e", raised, msg, (ident, base, tuple(prefixes)))
+
+
+def model_text(line):
+    """the case line as the model reads it: an error is its message and its raised flag"""
+    if "E" not in line:
+        return line
+    out = []
+    for t in line.split(" "):
+        if t.startswith("E0=") or t.startswith("E1="):
+            v, _ = parse_text([t])
+            t = "e%d=%s" % (1 if v[1] else 0, v[2].hex())
+        out.append(t)
+    return " ".join(out)
 
 
 def children(v):
@@ -164,6 +189,44 @@ BYTES = [0, 1, 2, 3, 7, 127, 128, 254, 255]
 STRS = [b"", b"a", b"b", b"ab", b"aa", b"ba", b"A", "é".encode(), "世界".encode(), b"a\x00", b"\xff", b"\xc3", b"z",
         "aé".encode(), b"1", b" "]
 MSGS = [b"", b"a", b"b", b"boom"]
+BASES = [b"a", b"b", b"", b"a: b", b"a: a", b"boom"]
+PREFIXES = [b"a", b"a", b"", b"outer"]
+
+
+def gen_error(r):
+    """an error value: plain, or with a chain of wrapped errors (up to three layers over one of three base errors)"""
+    if r.chance(1, 2):
+        return ("e", r.chance(1, 2), r.choice(MSGS))
+    return chain_err(r.chance(1, 4), r.below(3), r.choice(BASES), [r.choice(PREFIXES) for _ in range(r.below(4))])
+
+
+def cousin_error(r, v):
+    """an error related to v: the same Go error again, an error that wraps it, the error it wraps, an error with the same
+    message and another chain (another base object, a flat error, the layers cut elsewhere), the other raised flag"""
+    raised = v[1]
+    if len(v) > 3:
+        ident, base, pxs = v[3][0], v[3][1], list(v[3][2])
+    else:
+        ident, base, pxs = 0, v[2], []
+    c = r.below(9)
+    if c == 0:
+        return v
+    if c in (1, 2):
+        return chain_err(raised, ident, base, pxs + [r.choice(PREFIXES)])
+    if c == 3 and pxs:
+        return chain_err(raised, ident, base, pxs[:-1])
+    if c == 4 and pxs:
+        return chain_err(raised, ident, base, [])
+    if c == 5:
+        return chain_err(raised, (ident + 1) % 3, base, pxs)
+    if c == 6:
+        return ("e", raised, v[2])
+    if c == 7 and pxs:
+        # the same message with the innermost layer folded into the base message
+        return chain_err(raised, ident, pxs[0] + b": " + base, pxs[1:])
+    if c == 8:
+        return chain_err(not raised, ident, base, pxs)
+    return chain_err(raised, ident, base, pxs)
 KEYS = [b"", b"a", b"b", b"k", "é".encode()]
 
 
@@ -220,7 +283,7 @@ def gen_scalar(r, nan_ok=False):
         return ("s", r.choice(STRS))
     if c == 14:
         return ("b", r.choice(STRS))
-    return ("e", r.chance(1, 2), r.choice(MSGS))
+    return gen_error(r)
 
 
 def gen_hashable(r, nan_ok=False):
@@ -270,6 +333,8 @@ def dedup_set(items):
 def cousin(r, v):
     """a value related to v: equal under ==, or nearly so (other numeric type, string<->byte_slice, +-0, neighbour)"""
     k = v[0]
+    if k == "e":
+        return cousin_error(r, v)
     if k == "i":
         c = r.below(6)
         if c == 0:
@@ -401,7 +466,7 @@ def gen_homo(r, kind):
     if kind == "mixnum":
         return r.choice([gen_int(r), gen_float(r), ("y", r.choice(BYTES))])
     if kind == "err":
-        return ("e", r.chance(1, 2), r.choice(MSGS))
+        return gen_error(r)
     if kind == "bytes":
         return ("b", r.choice(STRS))
     raise ValueError(kind)
@@ -1111,6 +1176,9 @@ def parse_text(toks, pos=0):
         return ("b", bytes.fromhex(t[2:])), pos + 1
     if t.startswith("e0=") or t.startswith("e1="):
         return ("e", t[1] == "1", bytes.fromhex(t[3:])), pos + 1
+    if t.startswith("E0=") or t.startswith("E1="):
+        parts = t[3:].split("/")
+        return chain_err(t[1] == "1", int(parts[0]), bytes.fromhex(parts[1]), [bytes.fromhex(x) for x in parts[2:]]), pos + 1
     if t[0] == "i":
         return ("i", int(t[1:])), pos + 1
     if t[0] == "y":
@@ -1251,7 +1319,7 @@ def _body(res, tier, obs, model, work, proved):
     shards = C.NCPU
     with ThreadPoolExecutor(max_workers=2) as ex:
         fg = ex.submit(run_sharded, obs, lines, work, "go", shards)
-        fm = ex.submit(run_sharded, model, lines, work, "mo", shards)
+        fm = ex.submit(run_sharded, model, [model_text(l) for l in lines], work, "mo", shards)
         (go, e1), (mo, e2) = fg.result(), fm.result()
     if go is None or mo is None:
         res.violation({"property": PROP, "kind": "harness-run-failed", "stage": "c15obs / model_ops", "log": e1 + " " + e2},
